@@ -37,3 +37,25 @@ Theorem C05_chain_unchanged_versions_exact_result : forall kss evs s,
   sc_res (c_scan s) = filter (in_interval (sc_l (c_scan s)) (sc_r (c_scan s))) (all_keys (c_nodes s)).
 Proof. exact chain_scan_phantom_free. Qed.
 Print Assumptions C05_chain_unchanged_versions_exact_result.
+
+(** ** Store level, sequential form (PhantomProofs): any number of layers, any max_size, both directions.
+    If a scan collected the node-version set and afterwards an ABSENT key of the range the scan covered is
+    inserted, at least one recorded (border, version) pair is stale in the new store -- and it is the border
+    that put reports as modified. *)
+From Yk Require Import KeyProofs TreeDefs ScanDefs SpecDefs StoreProofs ScanProofs PhantomProofs.
+
+Theorem C05_scan_detects_insert : forall ctr tr a o k v tr' po ctr',
+  WF_store ctr tr -> scan_inv tr -> t_null tr = false ->
+  bytes (sa_l a) -> bytes (sa_r a) -> bytes k ->
+  spec_scan_args_ok a = true -> scan tr a = Some o ->
+  smap_get (abs_tree tr) k = None ->
+  covered a (so_tuples o) k = true ->
+  put tr k v false ctr = Some (tr', po, ctr') ->
+  exists id ver, In (id, ver) (so_nv o) /\ store_leaf_ver tr' id <> Some ver.
+Proof. exact scan_detects_insert. Qed.
+Print Assumptions C05_scan_detects_insert.
+
+Theorem C05_nv_nonempty : forall tr a o,
+  scan tr a = Some o -> so_status o = St_OK -> so_nv o <> [].
+Proof. exact scan_nv_nonempty. Qed.
+Print Assumptions C05_nv_nonempty.
